@@ -301,6 +301,24 @@ pub fn run_config(cfg: &Cfg) -> Stats {
     let s = par_range(names.len() as u64, |i, st| check_name(&c, &names[i as usize].0, names[i as usize].1, st));
     total = total.merge(s);
     total.subspace(&format!("every CLDR layout locale ({}), {CONFIG}", names.len()), names.len() as u64, true);
+    // contended calls (G31): every worker thread asks about the same few CLDR locales - the ones that
+    // carry a script subtag (both directions occur among them) and a handful of plain ones - in a
+    // scrambled order at the same time
+    {
+        let mut hot: Vec<usize> = (0..names.len()).filter(|i| names[*i].0.split('-').any(|t| t.len() == 4 && t.chars().all(|ch| ch.is_ascii_alphabetic()))).collect();
+        let with_script = hot.len();
+        hot.extend((0..names.len()).step_by((names.len() / 6).max(1)).take(6));
+        if with_script > 0 {
+            let n = cfg.pick(300_000u64, 3_000_000u64);
+            let k = hot.len() as u64;
+            let s = par_range(n, |i, st| {
+                let j = hot[(mix(i ^ 0x9e3779b9) % k) as usize];
+                check_name(&c, &names[j].0, names[j].1, st)
+            });
+            total = total.merge(s);
+            total.subspace(&format!("contended calls: {k} CLDR locales ({with_script} with a script subtag) asked by all threads at once, scrambled order, {CONFIG}"), n, false);
+        }
+    }
     total = total.merge(sweep(cfg, &c.h, "c14", &|t, st, mode| check_triple(&c, t, st, mode)));
     let n = cfg.pick(100_000, 2_000_000);
     // G2 ids with scripts drawn from the listed ones half of the time
